@@ -38,12 +38,18 @@ def _stats_sum(stats_list):
     return tot, t, fns, stubs, steps, paths, backend
 
 
+JOB_ERRORS = []
+
+
 def _merge_jobs(res, tot, fns, stubs, backend):
     hist = obl = steps = 0
     t = 0.0
     for r in res:
         if 'error' in r:
-            raise Unsupported('bounded-history job %s: %s' % (r.get('opseq'), r['error']))
+            # an undecided job makes the run inconclusive - unless another job's finding is confirmed natively
+            JOB_ERRORS.append('bounded-history job %s: %s' % (r.get('opseq'), r['error']))
+            r.setdefault('findings', [])
+            continue
         hist += r['histories']
         obl += r['obligations']
         steps += r.get('steps', 0)
@@ -73,6 +79,7 @@ def run(out, replay_path=None):
 
     prog, dinfo = dump.dump_mir()
     timeout_ms = 600000 if thorough else 60000
+    del JOB_ERRORS[:]
 
     # ---- preflight: the BufWriter stub against the real std type ---------------------------
     targs = ['bufwriter', 4, 3, 4] if thorough else ['bufwriter', 3, 2, 4]
@@ -119,29 +126,28 @@ def run(out, replay_path=None):
     m_findings = [f for f in find1]
     scen = collect(jobs)
     inductive_broken = bool(m_findings)
-    if m_findings or scen:
-        # something is wrong: look for replayable histories (k-induction from Inv states, deeper BMC)
-        if not thorough:
-            for start, K, F in (('inv', 3, 1), ('init', 3, 1)):
-                res = wm.bmc_parallel(prog, K, F, timeout_ms=timeout_ms, seed=out.seed, start=start)
-                hh, oo, ss, tt = _merge_jobs(res, tot, fns, stubs, backend)
-                obligations += oo
-                steps += ss
-                st += tt
-                h0 += hh
-                jobs.append((start, K, F, res))
-            scen = collect(jobs)
-
     confirmed = []
     replayed = 0
-    claimed_here = [x for x in scen if x[0]['prop'] == pid]
-    if scen:
-        # replay: scenarios claimed for this property first, then the others (a history found for another
-        # clause may also break this property)
-        ordered = claimed_here + [x for x in scen if x[0]['prop'] != pid]
-        todo = [x for x in ordered if x[0]['scenario'] is not None][:60]
-        profiles = ['dev', 'release'] if thorough else ['dev']
-        for prof in profiles:
+    tried = set()
+
+    def try_replay():
+        """Replay the scenarios not tried yet: those claimed for this property first, then the others (a history
+        found for another clause may also break this property)."""
+        nonlocal replayed
+        claimed = [x for x in scen if x[0]['prop'] == pid]
+        ordered = claimed + [x for x in scen if x[0]['prop'] != pid]
+        todo = []
+        for x in ordered:
+            if x[0]['scenario'] is None:
+                continue
+            k = json.dumps(x[0]['scenario'], sort_keys=True, default=str)
+            if k not in tried:
+                tried.add(k)
+                todo.append(x)
+        todo = todo[:60]
+        if not todo:
+            return
+        for prof in (['dev', 'release'] if thorough else ['dev']):
             outs = replay.run_scenarios([x[0]['scenario'] for x in todo], profile=prof)
             replayed += len(todo)
             for (f, opseq, start), o in zip(todo, outs):
@@ -150,6 +156,30 @@ def run(out, replay_path=None):
                     confirmed.append((f, o, hit, prof))
             if confirmed:
                 break
+
+    if scen:
+        try_replay()
+    if (m_findings or scen) and not confirmed and not thorough:
+        # something is wrong but not reproduced yet: look for replayable histories (k-induction from Inv states,
+        # deeper BMC), each phase under a wall-clock budget
+        from . import executor as _ex
+        for start, K, F in (('inv', 3, 1), ('init', 3, 1)):
+            _ex.DEADLINE = time.time() + 240
+            try:
+                res = wm.bmc_parallel(prog, K, F, timeout_ms=timeout_ms, seed=out.seed, start=start)
+            finally:
+                _ex.DEADLINE = None
+            hh, oo, ss, tt = _merge_jobs(res, tot, fns, stubs, backend)
+            obligations += oo
+            steps += ss
+            st += tt
+            h0 += hh
+            jobs.append((start, K, F, res))
+            scen = collect(jobs)
+            try_replay()
+            if confirmed:
+                break
+    claimed_here = [x for x in scen if x[0]['prop'] == pid]
 
     out.evidence = {
         'level': 'model_checking',
@@ -205,6 +235,9 @@ def run(out, replay_path=None):
                                    'scenario': sc, 'native': hit})
             if len(out.violations) >= 3:
                 break
+        return
+    if JOB_ERRORS:
+        out.inconclusive.append('Unsupported: ' + JOB_ERRORS[0][:1200])
         return
     own = [f for f in m_findings if f['prop'] == pid] + [x for x in claimed_here]
     if own:
